@@ -9,9 +9,10 @@ exactness for commuting pieces as a statement about matrix exponentials, and the
 -/
 import OFV.Model.C15
 import OFV.Proofs.C15
+import OFV.Proofs.C15Exp
 
 namespace OFV.C15
-open OFV.Model.C15 OFV.Model.C14
+open OFV.Model.C15 OFV.Model.C14 OFV.C14
 
 /-- The leaf times of one (recursive) Trotter step add up to the step time. -/
 theorem suzuki_times_sum (perm : List Nat → List Nat) (r : Nat → Rat) (order : Nat) (q : List Nat)
@@ -193,6 +194,155 @@ theorem lsn_sym_step_is_product_formula (n : Nat) (Tre Tim V : Nat → Nat → R
       apply List.sum_eq_zero; intro x hx; obtain ⟨e, _, rfl⟩ := List.mem_map.mp hx; simp [coeffOfKind]
     rw [z1 false, z2, zero_add, add_zero]
     apply congrArg; apply List.map_congr_left; intro i _; simp [coeffOfKind]
+/-- The symmetric linear-swap-network step is a PALINDROME: its third part (the network with
+`offset=True` on the reversed qubits, gates in the order rot11, Ryxxy, Rxxyy) is exactly the first part
+read backwards — the same generator with the same coefficient for the same pair of modes on the same two
+physical qubits (`bump`: the left mode `p` now sits one qubit further right, the pair of qubits is the
+same) — for every number of modes, even and odd.  With `lsn_sym_step_is_product_formula` this is
+"each term twice at half time, mirrored". -/
+theorem lsn_sym_step_mirrored (n : Nat) (Tre Tim V : Nat → Nat → Rat) :
+    let first := (swapNetwork n false).2.flatMap fun e =>
+      [((0 : Nat), e.1, e.2.1, e.2.2.1, Tre e.1 e.2.1 / 2), (1, e.1, e.2.1, e.2.2.1, Tim e.1 e.2.1 / 2),
+       (2, e.1, e.2.1, e.2.2.1, V e.1 e.2.1)]
+    lsnSymStep n Tre Tim V =
+      first ++ ((List.range n).map fun i => (3, i, i, n - 1 - i, Tre i i)) ++ (first.reverse.map bump) := by
+  intro first
+  unfold lsnSymStep
+  congr 1
+  rw [swapNetwork_mirror, List.flatMap_map]
+  show _ = (List.flatMap _ _).reverse.map bump
+  rw [List.reverse_flatMap, List.map_flatMap]
+  apply List.flatMap_congr
+  intro e he
+  have he' : e ∈ (swapNetwork n false).2 := List.mem_reverse.mp he
+  obtain ⟨h1, h2⟩ := swapNetwork_call_adjacent n false e he'
+  have hpos : n - 1 - (n - 2 - e.2.2.1) = e.2.2.1 + 1 := by omega
+  simp [mirror, bump, hpos]
+/-- `controlled_structure`: the controlled linear-swap-network emitters are the uncontrolled generator
+lists (every generator understood with the control projector `|1⟩⟨1|_c`, as every gate is replaced by its
+controlled version) followed by exactly one phase generator `constant·|1⟩⟨1|_c` — so the circuit is the
+identity on control 0 and the same product formula times `e^{-i·constant·t}` on control 1.  (That every
+real gate of the controlled step classes IS the controlled version on the control qubit is checked
+operation by operation by the harness.) -/
+theorem controlled_structure (n : Nat) (Tre Tim V : Nat → Nat → Rat) (const : Rat) :
+    (lsnAsymStepControlled n Tre Tim V const).filter (fun e => e.1 != 4) = lsnAsymStep n Tre Tim V ∧
+    (lsnAsymStepControlled n Tre Tim V const).filter (fun e => e.1 == 4) = [(4, 0, 0, 0, const)] ∧
+    (lsnSymStepControlled n Tre Tim V const).filter (fun e => e.1 != 4) = lsnSymStep n Tre Tim V ∧
+    (lsnSymStepControlled n Tre Tim V const).filter (fun e => e.1 == 4) = [(4, 0, 0, 0, const)] := by
+  have hA : ∀ e ∈ lsnAsymStep n Tre Tim V, e.1 ≠ 4 := by
+    intro e he
+    unfold lsnAsymStep at he
+    simp only [List.mem_append, List.mem_flatMap, List.mem_map, List.mem_range] at he
+    rcases he with ⟨c, _, hc⟩ | ⟨i, _, rfl⟩
+    · simp only [List.mem_cons, List.not_mem_nil, or_false] at hc
+      rcases hc with rfl | rfl | rfl <;> simp
+    · simp
+  have hS : ∀ e ∈ lsnSymStep n Tre Tim V, e.1 ≠ 4 := by
+    intro e he
+    unfold lsnSymStep at he
+    simp only [List.mem_append, List.mem_flatMap, List.mem_map, List.mem_range] at he
+    rcases he with (⟨c, _, hc⟩ | ⟨i, _, rfl⟩) | ⟨c, _, hc⟩
+    · simp only [List.mem_cons, List.not_mem_nil, or_false] at hc
+      rcases hc with rfl | rfl | rfl <;> simp
+    · simp
+    · simp only [List.mem_cons, List.not_mem_nil, or_false] at hc
+      rcases hc with rfl | rfl | rfl <;> simp
+  unfold lsnAsymStepControlled lsnSymStepControlled
+  simp only [List.filter_append]
+  refine ⟨?_, ?_, ?_, ?_⟩
+  · rw [List.filter_eq_self.mpr (by intro e he; simpa using hA e he)]; simp
+  · rw [List.filter_eq_nil_iff.mpr (by intro e he; simpa using hA e he)]; simp
+  · rw [List.filter_eq_self.mpr (by intro e he; simpa using hS e he)]; simp
+  · rw [List.filter_eq_nil_iff.mpr (by intro e he; simpa using hS e he)]; simp
+
+/-- SPLIT_OPERATOR steps as product formulas: every density–density term once with the full coefficient
+`2V_pq` (C14 swap network), every orbital number operator once (asymmetric) or twice with half the energy,
+before and after the interaction part (symmetric). -/
+theorem so_steps_are_product_formulas (n : Nat) (V : Nat → Nat → Rat) (E : Nat → Rat)
+    (hV : ∀ p q, V p q = V q p) :
+    ((soAsymStep n V E).map (coeffOfKind 2)).sum = ((allPairs n).map fun k => 2 * V k.1 k.2).sum ∧
+    ((soAsymStep n V E).map (coeffOfKind 5)).sum = ((List.range n).map E).sum ∧
+    ((soSymStep n V E).map (coeffOfKind 2)).sum = ((allPairs n).map fun k => 2 * V k.1 k.2).sum ∧
+    ((soSymStep n V E).map (coeffOfKind 5)).sum
+      = ((List.range n).map fun i => E i / 2).sum + ((List.range n).map fun i => E i / 2).sum := by
+  have hV2 : ∀ p q, 2 * V p q = 2 * V q p := by intro p q; rw [hV]
+  have net : ∀ c, (((swapNetwork n false).2.map fun e => ((2 : Nat), e.1, e.2.1, e.2.2.1, 2 * V e.1 e.2.1)).map
+      (coeffOfKind c)).sum = if c = 2 then ((allPairs n).map fun k => 2 * V k.1 k.2).sum else 0 := by
+    intro c
+    rw [List.map_map]
+    by_cases hc : c = 2
+    · subst hc
+      rw [if_pos rfl, ← sum_over_log n false _ hV2]
+      apply congrArg; apply List.map_congr_left; intro e _; simp [coeffOfKind]
+    · rw [if_neg hc]
+      apply List.sum_eq_zero; intro x hx; obtain ⟨e, _, rfl⟩ := List.mem_map.mp hx
+      simp [coeffOfKind]; omega
+  have orb : ∀ (c : Nat) (pos : Nat → Nat) (f : Nat → Rat),
+      (((List.range n).map fun i => ((5 : Nat), i, i, pos i, f i)).map (coeffOfKind c)).sum
+        = if c = 5 then ((List.range n).map f).sum else 0 := by
+    intro c pos f
+    rw [List.map_map]
+    by_cases hc : c = 5
+    · subst hc
+      rw [if_pos rfl]; apply congrArg; apply List.map_congr_left; intro i _; simp [coeffOfKind]
+    · rw [if_neg hc]
+      apply List.sum_eq_zero; intro x hx; obtain ⟨e, _, rfl⟩ := List.mem_map.mp hx
+      simp [coeffOfKind]; omega
+  unfold soAsymStep soSymStep
+  simp only [List.map_append, List.sum_append, net, orb]
+  refine ⟨?_, ?_, ?_, ?_⟩ <;> simp [coeffOfKind]
+
+/-- LOW_RANK step as a product formula: for every singular component its density–density terms once
+(`2 c_j[p,q]` per pair, `c_j[p,p]` per mode), the one-body orbital energies once. -/
+theorem lr_step_is_product_formula (n : Nat) (E : Nat → Rat) (cs : List (Nat → Nat → Rat))
+    (h : ∀ c ∈ cs, ∀ p q, c p q = c q p) :
+    ((lrStep n E cs).map (coeffOfKind 2)).sum
+      = (cs.map fun c => ((allPairs n).map fun k => 2 * c k.1 k.2).sum).sum ∧
+    ((lrStep n E cs).map (coeffOfKind 3)).sum
+      = (cs.map fun c => ((List.range n).map fun p => c p p).sum).sum ∧
+    ((lrStep n E cs).map (coeffOfKind 5)).sum = ((List.range n).map E).sum := by
+  obtain ⟨i2, i3, i5⟩ := lrComponents_sums n cs 0 h
+  have orb : ∀ k, (((List.range n).map fun p => ((5 : Nat), p, p, p, E p)).map (coeffOfKind k)).sum
+      = if k = 5 then ((List.range n).map E).sum else 0 := by
+    intro k
+    rw [List.map_map]
+    by_cases hk : k = 5
+    · subst hk
+      rw [if_pos rfl]; apply congrArg; apply List.map_congr_left; intro i _; simp [coeffOfKind]
+    · rw [if_neg hk]
+      apply List.sum_eq_zero; intro x hx; obtain ⟨e, _, rfl⟩ := List.mem_map.mp hx
+      simp [coeffOfKind]; omega
+  unfold lrStep
+  simp only [List.map_append, List.sum_append, orb, i2, i3, i5]
+  refine ⟨?_, ?_, ?_⟩ <;> simp [coeffOfKind]
+/-- Exactness for commuting pieces (Mathlib matrix exponential): if the generators `G` of one Trotter
+step commute pairwise, the product over all leaf steps of the whole simulation — every order, every
+step count, every value of the Suzuki ratios, any involutive or other qubit bookkeeping — of the step
+unitaries `∏_g exp(z τ g)` is exactly `exp(z t ΣG)`; with `z = -i` this is `exp(-iHt)`.  (All factors
+commute, so the order in which the circuit multiplies them is immaterial.) -/
+theorem exact_when_commuting {d : Nat} (perm : List Nat → List Nat) (r : Nat → Rat) (order nSteps : Nat)
+    (hn : nSteps ≠ 0) (q : List Nat) (time : Rat) (G : List (Matrix (Fin d) (Fin d) ℂ))
+    (hc : G.Pairwise Commute) (z : ℂ) :
+    ((simulate perm r order nSteps q time).1.map fun l => stepU G (z * (l.time : ℂ))).prod
+      = NormedSpace.exp ((z * (time : ℂ)) • G.sum) := by
+  have gen : ∀ L : List Leaf, (L.map fun l : Leaf => z * (l.time : ℂ)).sum
+      = z * (((L.map (·.time)).sum : Rat) : ℂ) := by
+    intro L
+    induction L with
+    | nil => simp
+    | cons a l ih => simp only [List.map_cons, List.sum_cons, ih]; push_cast; ring
+  have hs : ((simulate perm r order nSteps q time).1.map fun l : Leaf => z * (l.time : ℂ)).sum
+      = z * (time : ℂ) := by
+    rw [gen, simulate_times_sum perm r order nSteps hn q time]
+  have h := prod_stepU G hc ((simulate perm r order nSteps q time).1.map fun l : Leaf => z * (l.time : ℂ))
+  rw [List.map_map, hs] at h
+  exact h
+
+/-- non-vacuity of `exact_when_commuting`: diagonal matrices commute -/
+example : ([Matrix.diagonal ![1, 2], Matrix.diagonal ![3, (-1 : ℂ)]] :
+    List (Matrix (Fin 2) (Fin 2) ℂ)).Pairwise Commute := by
+  simp [Commute, SemiconjBy, Matrix.diagonal_mul_diagonal, mul_comm]
+
 /-- non-vacuity / sanity: the order-2 step with ratio `r 2 = 1/3` has times `⅓,⅓,-⅓,⅓,⅓`; the
 reversal is an involution; three steps leave the register reversed -/
 example : (performStep reversal (fun _ => 1/3) 2 [0, 1, 2] 1).map (·.time) = [1/3, 1/3, -1/3, 1/3, 1/3] := by
